@@ -58,7 +58,7 @@ class BranchModel(seqx.Model):
     def __init__(self, tier):
         self.tier = tier
         self.names, self.make, self.facts = _alphabet(tier)
-        self.maxlive = 2 if tier == 'quick' else 3
+        self.maxlive = 2
 
     def build(self, hist):
         from pytableaux.proof import Branch
@@ -155,7 +155,7 @@ class BranchModel(seqx.Model):
 def _e3(tier, prefill=False):
     m = BranchModel(tier)
     init = [('append', 0, f'fill{j}') for j in range(7)] if prefill else []
-    res = seqx.bfs(m, max_depth=(3 if tier == 'quick' else 4) if prefill else (4 if tier == 'quick' else 5), init_hist=init)
+    res = seqx.bfs(m, max_depth=3 if prefill else (4 if tier == 'quick' else 5), init_hist=init)
     viols = []
     for v in res['violations']:
         viols.append(dict(hist=[m.opstr(o) for o in v['hist']], op=m.opstr(v['op']), err=v['err']))
@@ -273,7 +273,7 @@ def run(ctx):
         traces_validated_against_impl=e3['transitions'] + execs,
         evaluations=e3['transitions'] + execs, distinct_nontrivial=e3['states'],
         rule=(f'E3: BFS over append/copy histories on real Branch objects (alphabet of {12 if ctx.quick else 16} nodes incl. out-of-order, '
-              f'wrapping (s -> a1) and world-tagged constants, access nodes; <= {2 if ctx.quick else 3} live branches) to depth '
+              f'wrapping (s -> a1) and world-tagged constants, access nodes; <= 2 live branches) to depth '
               f'{e3["max_depth"]} from the empty branch and (one level less) from a branch already holding seven filler nodes, where lookups go through the branch index; every has()/find() by node properties is compared with the node list; a state is per branch (constants, next constant, worlds, next world) -- the only fields append() reads; '
               'E1: witness steps of FO and modal proofs under the default schedule and 1 deviation'),
         e3_max_depth=e3['max_depth'], e3_depth_capped=e3['capped'], e1_executions=execs,
